@@ -380,39 +380,162 @@ def class_rules(run, repo, max_len):
     return n_bt
 
 
+FLOAT_MAKERS = {'float', 'float64', 'double', 'float_', 'longdouble'}
+CARRIERS = {'array', 'asarray', 'asanyarray', 'squeeze', 'atleast_1d', 'ravel', 'copy', 'reshape', 'sort', 'abs',
+            'absolute', 'negative', 'positive', 'unique'}
+
+
+def _dtype_kind(node):
+    """'float' / 'other' of a dtype= argument"""
+    if isinstance(node, ast.Name):
+        return 'float' if node.id in FLOAT_MAKERS else 'other'
+    if isinstance(node, ast.Attribute):
+        return 'float' if node.attr in FLOAT_MAKERS else 'other'
+    if isinstance(node, ast.Constant) and isinstance(node.value, str):
+        return 'float' if node.value.startswith(('float', 'f', 'd', 'double')) else 'other'
+    return 'other'
+
+
+class NumKind:
+    """does an expression hold the caller's number unchanged in type ('carry': an integer temperature stays an
+    integer), a float whatever the caller passed ('float'), or something this analysis does not follow ('unknown')?
+    Follows assignments inside the function and calls of functions defined in the repository."""
+
+    def __init__(self, repo):
+        self.repo = repo
+
+    @staticmethod
+    def join(kinds):
+        kinds = list(kinds)
+        if not kinds:
+            return 'unknown'
+        if 'carry' in kinds:
+            return 'carry'
+        if all(k == 'float' for k in kinds):
+            return 'float'
+        return 'unknown'
+
+    def name_kind(self, m, fn, name, before, env, depth):
+        """kind of the value of ``name`` in ``fn`` where it is read at line ``before``"""
+        defs = []
+        for st in ast.walk(fn):
+            if isinstance(st, ast.Assign) and any(isinstance(t, ast.Name) and t.id == name for t in st.targets) \
+                    and st.lineno < before:
+                defs.append(st)
+            elif isinstance(st, ast.AugAssign) and isinstance(st.target, ast.Name) and st.target.id == name \
+                    and st.lineno < before:
+                defs.append(st)
+        if not defs:
+            return env.get(name, 'unknown')
+        # the last straight-line (function body level) assignment kills the earlier ones
+        top = [st for st in defs if st in fn.body]
+        if top:
+            last = max(top, key=lambda s: s.lineno)
+            defs = [st for st in defs if st.lineno >= last.lineno]
+            start = None
+        else:
+            start = env.get(name)
+        kinds = [] if start is None else [start]
+        for st in defs:
+            if isinstance(st, ast.AugAssign):
+                kinds.append(self.join_bin(self.name_kind(m, fn, name, st.lineno, env, depth),
+                                           self.kind(m, fn, st.value, env, depth), st.op))
+            else:
+                kinds.append(self.kind(m, fn, st.value, env, depth))
+        return self.join(kinds)
+
+    @staticmethod
+    def join_bin(a, b, op):
+        if isinstance(op, ast.Div):
+            return 'float'
+        if 'float' in (a, b):
+            return 'float'
+        if 'carry' in (a, b):
+            return 'carry'
+        return 'unknown'
+
+    def kind(self, m, fn, e, env, depth=0):
+        if isinstance(e, ast.Constant):
+            return 'float' if isinstance(e.value, float) else 'unknown'
+        if isinstance(e, ast.Name):
+            return self.name_kind(m, fn, e.id, e.lineno, env, depth)
+        if isinstance(e, (ast.List, ast.Tuple)):
+            return self.join(self.kind(m, fn, x, env, depth) for x in e.elts)
+        if isinstance(e, ast.UnaryOp):
+            return self.kind(m, fn, e.operand, env, depth)
+        if isinstance(e, ast.BinOp):
+            return self.join_bin(self.kind(m, fn, e.left, env, depth), self.kind(m, fn, e.right, env, depth), e.op)
+        if isinstance(e, ast.IfExp):
+            return self.join([self.kind(m, fn, e.body, env, depth), self.kind(m, fn, e.orelse, env, depth)])
+        if isinstance(e, ast.Subscript):
+            return self.kind(m, fn, e.value, env, depth)
+        if isinstance(e, ast.Call):
+            f = e.func
+            fname = f.id if isinstance(f, ast.Name) else f.attr if isinstance(f, ast.Attribute) else None
+            for kw in e.keywords:
+                if kw.arg == 'dtype':
+                    return 'float' if _dtype_kind(kw.value) == 'float' else 'unknown'
+            target = self.repo.resolve_expr(m, f) if isinstance(f, (ast.Name, ast.Attribute)) else None
+            if isinstance(target, tuple) and target[0] == 'function':
+                if depth > 6:
+                    return 'unknown'
+                _, fm, fdef = target
+                pos, _ = params(fdef)[0], None
+                sub_env = {}
+                for p, a in zip(pos, e.args):
+                    sub_env[p] = self.kind(m, fn, a, env, depth)
+                for kw in e.keywords:
+                    if kw.arg:
+                        sub_env[kw.arg] = self.kind(m, fn, kw.value, env, depth)
+                rets = [r for r in ast.walk(fdef) if isinstance(r, ast.Return) and r.value is not None]
+                return self.join(self.kind(fm, fdef, r.value, sub_env, depth + 1) for r in rets)
+            if fname in FLOAT_MAKERS:
+                return 'float'
+            if fname == 'astype' and e.args:
+                return 'float' if _dtype_kind(e.args[0]) == 'float' else 'unknown'
+            if fname in CARRIERS:
+                if e.args:
+                    return self.kind(m, fn, e.args[0], env, depth)
+                if isinstance(f, ast.Attribute):
+                    return self.kind(m, fn, f.value, env, depth)
+            return 'unknown'
+        return 'unknown'
+
+
 def integer_temperatures(run, repo):
     """numpy refuses a negative integer power of an integer: an evaluator that raises its temperature argument
     to such a power without first making it a float cannot be evaluated at T=300 / np.arange(...) temperatures,
-    which the sibling evaluators accept"""
+    which the sibling evaluators accept.  Decided by following the value of the base of every such power back to
+    the function's arguments (assignments, array constructors and helpers defined in the repository are followed;
+    'float' wherever float()/np.float64()/dtype=float/true division/a float constant intervenes)."""
     n = 0
+    nk = NumKind(repo)
     for modname in (NASA, SHO):
         m = repo.module(modname)
         for fname, fn in sorted(m.functions.items()):
             if not fname.startswith('get_'):
                 continue
-            names = set(params(fn)[0])
-            floated = {}
-            for st in ast.walk(fn):
-                if isinstance(st, ast.Assign) and len(st.targets) == 1 and isinstance(st.targets[0], ast.Name) and \
-                        isinstance(st.value, ast.Call) and isinstance(st.value.func, ast.Name) and \
-                        st.value.func.id == 'float':
-                    floated.setdefault(st.targets[0].id, st.lineno)
+            env = {p: 'carry' for p in params(fn)[0]}
             for node in ast.walk(fn):
-                if not (isinstance(node, ast.BinOp) and isinstance(node.op, ast.Pow) and
-                        isinstance(node.left, ast.Name) and node.left.id in names):
+                if not (isinstance(node, ast.BinOp) and isinstance(node.op, ast.Pow)):
                     continue
                 e = node.right
                 neg = isinstance(e, ast.UnaryOp) and isinstance(e.op, ast.USub) and \
                     isinstance(e.operand, ast.Constant) and isinstance(e.operand.value, int)
                 if not neg:
                     continue
+                k = nk.kind(m, fn, node.left, env)
+                if k == 'unknown':
+                    run.extra.setdefault('negative powers whose base was not followed', []).append(
+                        '%s:%d' % (m.relpath, node.lineno))
+                    continue
                 n += 1
-                ok = node.left.id in floated and floated[node.left.id] < node.lineno
-                run.check(ok, 'TYPE.negpow', '%s.%s' % (modname.split('.')[-1], fname), 'integer temperatures',
-                          '%s is raised to a negative integer power without having been made a float: numpy '
-                          'refuses this for integer temperatures (T=300 reaches here as np.int64), so the species '
-                          'cannot be evaluated there although its sibling evaluators can'
-                          % node.left.id, m, node)
+                run.check(k == 'float', 'TYPE.negpow', '%s.%s' % (modname.split('.')[-1], fname),
+                          'integer temperatures',
+                          '%s is raised to a negative integer power and holds the caller\'s value with its type '
+                          'unchanged: numpy refuses this for integer temperatures (T=300 reaches here as np.int64), '
+                          'so the species cannot be evaluated there although its sibling evaluators can'
+                          % ast.unparse(node.left), m, node)
     return n
 
 
@@ -475,8 +598,15 @@ MUTANTS = [
      'edits': [(S, '        - get_shomate_SoR(a=a, T=T, units=units)', '        + get_shomate_SoR(a=a, T=T, units=units)')]},
     {'name': 'Nasa.get_GoRT drops S_elements', 'expect': ('TWIN', 'Nasa.get_GoRT'),
      'edits': [(N, '                           S_elements=S_elements, **kwargs)', '                           **kwargs)', 0, 2)]},
+    {'name': 'nasa9 CpoR negative integer powers of the raw argument', 'expect': ('TYPE.negpow', 'get_nasa9_CpoR'),
+     'edits': [(N, 'T_arr = np.array([1. / T**2, 1. / T, np.ones_like(T), T, T**2, T**3, T**4,',
+                'T_arr = np.array([T**-2, T**-1, np.ones_like(T), T, T**2, T**3, T**4,')]},
+    {'name': 'nasa9 HoRT no longer made a float', 'expect': ('TYPE.negpow', 'get_nasa9_HoRT'),
+     'edits': [(N, 'T = float(np.squeeze(T))', 'T = np.squeeze(T)', 0, 2)]},
 ]
 EQUIV = [
+    {'name': 'nasa9 HoRT made a float through dtype', 
+     'edits': [(N, 'T = float(np.squeeze(T))', 'T = np.squeeze(np.asarray(T, dtype=np.float64))', 0, 2)]},
     {'name': 'nasa CpoR rewritten powers', 'edits': [(N, 'T_arr = np.array([1., T, T**2, T**3, T**4, np.zeros_like(T),',
                                                       'T_arr = np.array([1., T, T * T, T * T**2, (T**2)**2, 0. * T,')]},
     {'name': 'shomate HoRT rewritten divisor',
